@@ -17,9 +17,12 @@ RULE = ("valid programs from the six program generators (expressions, control fl
         "and has at least 8 tokens.")
 ASSUMPTIONS = ["the lexer model (Model/Lexer.lean, another worker's deliverable) is compared end to end here; its own theorems are C04/C13/C18's",
                "generator names avoid glyphs that would form a keyword with a neighbouring token when spaces are removed"]
-PARTIAL = ("parse_render_full (character level, all layouts) is stated, not proved: layout invariance at character level is what these runs "
-           "check; proved: returned_tree_complete (all token streams), parse_tokens_roundtrip_partial (token level, expressions), "
-           "synonym_tables, comma_is_optional, linebreak_exceptions")
+PARTIAL = ("character level PROVED for the canonical rendering (C03Chars.parse_render_canonical: lexer model composed with the parser round trip — "
+           "one space between tokens, LF line ends, TAB indentation, every synonymous spelling, both punctuation sets, back-tick names, "
+           "safe-encoded literals; any nesting depth); the other layouts (several / no spaces, comments, 4-space indentation, CR / CRLF / LFCR, blank "
+           "lines, verbatim multi-line literals) are stated in parse_render_layouts_full and carried at character level by these runs; proved at "
+           "token + line-layout level for all of them: parse_statements_roundtrip, comments_are_invisible, comma_is_optional, "
+           "linebreak_exceptions, returned_tree_complete (all token streams), synonym_tables")
 
 
 def _retry_timeouts(ctx, lines, answers):
